@@ -499,6 +499,14 @@ def pc_term(pc, skip_try=False):
             t = c[1] if c[2] else ("not", c[1])
         elif c[0] == "match":
             t = ("matches", c[1], c[2]) if c[3] else ("not", ("matches", c[1], c[2]))
+            if c[3] and c[2][0] in ("wild", "var", "or", "tuple", "lit"):
+                # an arm is taken only if no earlier arm was: needed when the pattern overlaps earlier ones (catch-all arms)
+                overlapping = c[2][0] == "wild" or (c[2][0] == "tuple") or (c[2][0] == "var" and any(x[0] == "wild" for x in c[2][2] if isinstance(x, tuple)))
+                if overlapping:
+                    for d in (c[5] if len(c) > 5 else ()):
+                        t = ("bin", "&&", t, ("not", ("matches", c[1], d)))
+                    for d, g in (c[7] if len(c) > 7 else ()):
+                        t = ("bin", "&&", t, ("not", ("bin", "&&", ("matches", c[1], d), g)))
         else:
             continue
         out = t if out is None else ("bin", "&&", out, t)
